@@ -789,6 +789,44 @@ func c02(p *core.Program, r *core.Report) {
 		}
 	}
 
+	// ---- rule 5c: a part that can grow is not handed the parent's spare capacity
+	const r5c = "growable-part-capacity-capped"
+	r.Rule(r5c, "every method of package geom that returns a geometry of a type with a Push method (a part that can be appended to) built on a sub-slice of the receiver's flatCoords takes that sub-slice with a full slice expression whose capacity bound equals its upper bound (s[lo:hi:hi]): a view with spare capacity lets a Push on the part append in place, over the coordinates of the parts that follow it in the parent (mp.Polygon(0).Push(r) rewrote mp.Polygon(1)), and lets a later Push on the parent overwrite what was pushed onto the part", 1)
+	{
+		n := 0
+		for _, fn := range pkgFuncs(p, "") {
+			if fn.Signature.Recv() == nil || fn.Signature.Results().Len() != 1 || len(fn.Params) == 0 {
+				continue
+			}
+			rt := fn.Signature.Results().At(0).Type()
+			hasPush := false
+			ms := p.SSA.MethodSets.MethodSet(rt)
+			for i := 0; i < ms.Len(); i++ {
+				if ms.At(i).Obj().Name() == "Push" {
+					hasPush = true
+				}
+			}
+			if !hasPush || types.Identical(rt, fn.Signature.Recv().Type()) {
+				continue
+			}
+			for _, b := range fn.Blocks {
+				for _, in := range b.Instrs {
+					sl, ok := in.(*ssa.Slice)
+					if !ok || !isFloatSlice(sl.Type()) {
+						continue
+					}
+					base, path, isF := fieldLoad(sl.X)
+					if !isF || base != ssa.Value(fn.Params[0]) || !strings.HasSuffix(path, ".flatCoords") {
+						continue
+					}
+					n++
+					capped := sl.Max != nil && sl.High != nil && sl.Max == sl.High
+					r.Check(capped, r5c, fmt.Sprintf("%s/view#%d", short(fn), n), p.Pos(sl.Pos()), true, "full slice expression, capacity = length", "the part returned by "+short(fn)+" is built on "+"g.flatCoords[lo:hi] at "+p.Pos(sl.Pos())+" without a capacity bound: a Push on the part appends in place over the parent's following coordinates")
+				}
+			}
+		}
+	}
+
 	// ---- rule 6: Push / SetCoords copy; only Swap and GeometryCollection.Push share storage, by design
 	const r6 = "parts-copied-not-shared"
 	r.Rule(r6, "MODREF capture query: after Push (Polygon, MultiPoint, MultiLineString, MultiPolygon) and SetCoords (all 7 types) no memory reachable from the receiver holds a reference to memory supplied through another argument - the part's coordinates and offsets are copied, so later pushes into or reversals of either geometry cannot show through the other; GeometryCollection.Push, which stores the pushed pointers by design, is the positive control that the query sees captures", 12)
